@@ -158,6 +158,11 @@ func (k Keeper) UpdateServiceBinding(
 
 		binding.Deposit = binding.Deposit.Add(deposit...)
 		updated = true
+
+		// the total must stay a deposit a binding may hold
+		if err := types.ValidateServiceDeposit(binding.Deposit); err != nil {
+			return err
+		}
 	}
 
 	parsedPricing := k.GetPricing(ctx, serviceName, provider)
@@ -262,6 +267,11 @@ func (k Keeper) EnableServiceBinding(
 		}
 
 		binding.Deposit = binding.Deposit.Add(deposit...)
+
+		// the total must stay a deposit a binding may hold
+		if err := types.ValidateServiceDeposit(binding.Deposit); err != nil {
+			return err
+		}
 	}
 
 	minDeposit := k.getMinDeposit(ctx, k.GetPricing(ctx, serviceName, provider))
